@@ -146,29 +146,12 @@ func checkC05(c *Ctx) {
 		case "CompoundPacket":
 			return // sum of aligned members (C05-SUM)
 		}
-		e := newNumEngine(c, nil)
-		e.AssumeNoWrap = c05SizeFns
-		var rets []num.RootReturn
-		if msg := guarded(func() { rets = e.AnalyzeRoot(t.marshalSize, num.RootOptions{ElemsNonNil: true}) }); msg != "" {
+		ok, det, pmsg := c05Aln(c, t)
+		if pmsg != "" {
 			mu.Lock()
-			r.Fatalf("analysis panic in %s.MarshalSize: %s", t.name, msg)
+			r.Fatalf("analysis panic in %s.MarshalSize: %s", t.name, pmsg)
 			mu.Unlock()
 			return
-		}
-		ok := len(rets) > 0 && !e.Exceeded
-		var det []string
-		for _, rr := range rets {
-			v := rr.Ret.Results[0]
-			ex := e.ExprOf(rr.St, v)
-			cg := rr.St.CongOfExpr(rr.St.Subst(ex))
-			good := cg.M > 0 && cg.M%4 == 0 && cg.R%4 == 0
-			if len(ex.T) == 0 && !ex.Bad {
-				good = ex.C%4 == 0
-			}
-			det = append(det, fmt.Sprintf("%s ≡ %d (mod %d)", e.LinString(rr.St.Subst(ex)), cg.R, cg.M))
-			if !good {
-				ok = false
-			}
 		}
 		mu.Lock()
 		aln[i] = ok
@@ -206,6 +189,67 @@ func checkC05(c *Ctx) {
 	if os.Getenv("C05_ONLY") == "" || os.Getenv("C05_ONLY") == "CompoundPacket" {
 		c05Compound(c)
 	}
+}
+
+// c05Aln: the numeric engine derives MarshalSize() ≡ 0 (mod 4) at every return.
+func c05Aln(c *Ctx, t c05Type) (ok bool, det []string, panicMsg string) {
+	e := newNumEngine(c, nil)
+	e.AssumeNoWrap = c05SizeFns
+	var rets []num.RootReturn
+	if msg := guarded(func() { rets = e.AnalyzeRoot(t.marshalSize, num.RootOptions{ElemsNonNil: true}) }); msg != "" {
+		return false, nil, msg
+	}
+	ok = len(rets) > 0 && !e.Exceeded
+	for _, rr := range rets {
+		v := rr.Ret.Results[0]
+		ex := e.ExprOf(rr.St, v)
+		cg := rr.St.CongOfExpr(rr.St.Subst(ex))
+		good := cg.M > 0 && cg.M%4 == 0 && cg.R%4 == 0
+		if len(ex.T) == 0 && !ex.Bad {
+			good = ex.C%4 == 0
+		}
+		det = append(det, fmt.Sprintf("%s ≡ %d (mod %d)", e.LinString(rr.St.Subst(ex)), cg.R, cg.M))
+		if !good {
+			ok = false
+		}
+	}
+	return ok, det, ""
+}
+
+// c05LenHolds re-establishes, for one packet type, the identity len(T.Marshal()) = T.MarshalSize() at
+// the nil-error returns (rules DET, ALN, LEN of C05) for use as a premise elsewhere.
+func c05LenHolds(c *Ctx, an *effects.Analysis, t c05Type) (bool, string) {
+	p := c.Prog
+	hidx, hdrNamed := headerFieldIdx(p)
+	hdrMarshal := p.Func("Header.Marshal")
+	if hidx == nil || hdrMarshal == nil || hdrNamed == nil || t.marshal == nil || t.marshalSize == nil {
+		return false, "unresolved anchor"
+	}
+	if c05SizeFns == nil {
+		c05SizeFns = sizeUniverse(c)
+	}
+	det, why, allocs := c05Det(p, an, t)
+	if !det {
+		return false, "C05-DET: " + why
+	}
+	aln, alnDet, pmsg := c05Aln(c, t)
+	if pmsg != "" || !aln {
+		return false, "C05-ALN: " + pmsg + strings.Join(alnDet, "; ")
+	}
+	n := 0
+	for _, o := range c05Marshal(c, an, t, det, aln, allocs, hidx, hdrMarshal) {
+		if o.rule != "C05-LEN" {
+			continue
+		}
+		if o.st != core.Discharged {
+			return false, "C05-LEN: " + o.key + ": " + o.detail
+		}
+		n++
+	}
+	if n == 0 {
+		return false, "C05-LEN: no obligation generated"
+	}
+	return true, fmt.Sprintf("C05-DET, C05-ALN and %d C05-LEN obligation(s) of %s re-established", n, t.name)
 }
 
 // c05SizeFns: functions reachable from a MarshalSize method or wireSize; under the size-domain
